@@ -297,7 +297,54 @@ func c04Mutations(c *fw.Ctx, idx int) {
 	desc := map[string]any{"base": g.String()}
 	in := append([]byte{}, base...)
 	class := ""
-	switch r.Intn(7) {
+	switch r.Intn(8) {
+	case 7:
+		// one member of a multi-part geometry replaced by the complete, valid
+		// encoding of a geometry of that member's type in ANOTHER layout (what a
+		// careless producer concatenates): the bytes are consistent in themselves,
+		// only the dimensions of parent and member disagree
+		class = "member-of-another-layout"
+		var starts []int
+		for _, f := range fields {
+			if f.Kind == "order" && f.Depth == 1 {
+				starts = append(starts, f.Off)
+			}
+		}
+		var mk model.Kind
+		switch g.Kind {
+		case model.MultiPoint:
+			mk = model.Point
+		case model.MultiLineString:
+			mk = model.LineString
+		case model.MultiPolygon:
+			mk = model.Polygon
+		}
+		if len(starts) == 0 || mk == 0 && g.Kind != model.MultiPoint {
+			class = "valid"
+			break
+		}
+		k := r.Intn(len(starts))
+		end := len(in)
+		if k+1 < len(starts) {
+			end = starts[k+1]
+		}
+		var alt []byte
+		for try := 0; try < 20 && alt == nil; try++ {
+			l2 := gen.StdLayouts[r.Intn(4)]
+			if l2 == g.Layout {
+				continue
+			}
+			ag := gen.Shape(r, mk, l2, gen.SmallInt, gen.ShapeOpts{Valid: true, NoEmptyPoint: true})
+			if b, _, err := ref.WriteWKB(ag, m.o); err == nil {
+				alt = b
+				desc["member"] = fmt.Sprintf("member %d replaced by the encoding of %s", k, ag.String())
+			}
+		}
+		if alt == nil {
+			class = "valid"
+			break
+		}
+		in = append(append(append([]byte{}, in[:starts[k]]...), alt...), in[end:]...)
 	case 0:
 		class = "valid"
 	case 1:
